@@ -56,7 +56,7 @@ def gen_session(prop: str, tier: str, seed: int) -> dict:
         op = {'op': kind, 'm': m, 'dt': dt, 'cb': cb, 'vsub': rng.sub(),
               'vstyle': rng.wpick([('generic', 5), ('real', 1.5), ('confined', 3), ('eigvec', 1), ('unit', 1)]),
               'confine': rng.randrange(1, n + 1), 'hermitian_flag': bool(herm and rng.chance(0.75)), 'numeig': rng.randrange(1, 4),
-              'vscale': rng.pick([1.0, 1.0, 0.25, 8.0, 1e-3, 1e3])}
+              'vscale': rng.pick([1.0, 1.0, 0.25, 8.0, 1e-3, 1e3]), 'vdtype': rng.pick(['complex', 'complex', 'float', 'float', 'int'])}
         env_kinds = [k for k in ('EIGSIGN', 'ULP') if k in enabled and rng.chance(0.5)]
         op['env'] = {'gauge': rng.sub(), 'kinds': env_kinds}
         ops.append(op)
@@ -170,15 +170,15 @@ class KRSession(SessionBase):
         g = np.random.Generator(np.random.PCG64(op['vsub']))
         n = self.n
         st = op['vstyle']
-        if st == 'real':
-            v = g.normal(size=n).astype(complex)
+        if st in ('real', 'unit') or (st == 'generic' and op.get('vdtype') in ('float', 'int') and int(op['vsub']) % 2 == 0):
+            v = g.normal(size=n).astype(complex) if st != 'unit' else None
+            if v is None:
+                v = np.zeros(n, dtype=complex)
+                v[int(op['confine']) % n] = 1.0
         elif st == 'confined':
             v = np.zeros(n, dtype=complex)
             k = min(n, max(1, int(op['confine'])))
             v[:k] = g.normal(size=k) + 1j * g.normal(size=k)
-        elif st == 'unit':
-            v = np.zeros(n, dtype=complex)
-            v[int(op['confine']) % n] = 1.0
         elif st == 'eigvec' and self.cfg['herm']:
             w, U = np.linalg.eigh(self.A)
             k = min(n, max(1, int(op['confine']) % 3 + 1))
@@ -188,7 +188,17 @@ class KRSession(SessionBase):
             v = g.normal(size=n) + 1j * g.normal(size=n)
         if np.linalg.norm(v) == 0:
             v[0] = 1.0
-        return v * op.get('vscale', 1.0)
+        v = v * op.get('vscale', 1.0)
+        dk = op.get('vdtype', 'complex')
+        if dk == 'float' and not np.any(v.imag):
+            v = v.real.copy()                      # a real start vector handed over with a real dtype
+            self.probe('start_vector_real_dtype')
+        elif dk == 'int' and not np.any(v.imag):
+            vi = np.round(v.real * 4)
+            if np.any(vi):
+                v = vi.astype(np.int64)
+                self.probe('start_vector_int_dtype')
+        return v
 
     def call(self, op, fn):
         self.env.begin_op(op.get('env', {}))
@@ -262,7 +272,10 @@ class KRSession(SessionBase):
         if cls == 'grey':
             self.skip('krylov_grey_zone')
             return 'grey'
-        self.report('C14', ko.check_arnoldi(self.A, vb, m, out, cls, K, normA), 'arnoldi', cls, m)
+        hz = ko.arnoldi_horizon(self.A, vb, Q)
+        if hz < min(m, Q.shape[1]):
+            self.probe('arnoldi_ill_conditioned_basis_guard')
+        self.report('C14', ko.check_arnoldi(self.A, vb, m, out, cls, K, normA, horizon=hz), 'arnoldi', cls, m)
         return 'ok'
 
     def op_eigh(self, op):
